@@ -303,18 +303,19 @@ Qed.
 Definition assoc_pairs_line (var : string) (l : list (N * N)) : string :=
   append "    local -A " (append var (append "=(" (append (join " " (map kv l)) (append ")" nl)))).
 
-Lemma bash_star_stmt l rest :
-  bash_stmt (append (assoc_pairs_line "star_transitions" l) rest)
-  = Some (SAssoc "star_transitions" (map (fun p => (fst p, [snd p])) l), rest).
+Lemma bash_pairs_stmt var l rest :
+  var = "star_transitions" \/ var = "accepting_states" ->
+  bash_stmt (append (assoc_pairs_line var l) rest)
+  = Some (SAssoc var (map (fun p => (fst p, [snd p])) l), rest).
 Proof.
-  unfold assoc_pairs_line. rewrite !append_assoc. unfold bash_stmt, bz_stmt.
+  intros Hvar. unfold assoc_pairs_line. rewrite !append_assoc. unfold bash_stmt, bz_stmt.
   rewrite alt_skip by (erewrite pbind_lit' by reflexivity; apply pbind_none; reflexivity).
   apply alt_take.
   erewrite pbind_lit' by reflexivity. erewrite pbind_lit' by reflexivity.
-  erewrite pbind_some by name_concrete.
+  erewrite pbind_some by (destruct Hvar as [-> | ->]; name_concrete).
   rewrite alt_skip by reflexivity.
   destruct l as [|p l].
-  - apply alt_take. Transparent join. reflexivity. Opaque join.
+  - apply alt_take. Transparent join. destruct Hvar as [-> | ->]; reflexivity. Opaque join.
   - rewrite alt_skip.
     2:{ apply pbind_none. unfold lit. Transparent join. destruct l; cbn [map join append strip];
         unfold kv; cbn [append strip Ascii.eqb Bool.eqb]; reflexivity. }
@@ -542,7 +543,7 @@ Proof.
       split; [discriminate|]. split; [exact I|]. intros rest. rewrite append_assoc.
       apply (bash_decl_stmt "command_transitions"). auto.
     + destruct (t_mstar t) as [l|]; [|constructor]. constructor; [|constructor].
-      split; [discriminate|]. split; [exact I|]. intros rest. apply bash_star_stmt.
+      split; [discriminate|]. split; [exact I|]. intros rest. apply bash_pairs_stmt. auto.
 Qed.
 
 (** completion tables *)
